@@ -95,6 +95,7 @@ type Decl struct {
 
 type Contracts struct {
 	GlobalNonNil map[string]bool // package-level pointer variables initialised once with a non-nil value
+	GlobalGuard  map[string]string // package-level variable -> package-level mutex that guards it
 	Decls        map[string]*Decl
 	Funcs        map[string]*FuncSpec // key: pkg + "." + Key
 	Types        map[string]*TypeSpec // key: pkg + "." + Name
@@ -111,12 +112,12 @@ var topKeywords = map[string]bool{"global": true, "declare": true, "type": true,
 var subKeywords = map[string]bool{"requires": true, "ensures": true, "xensures": true, "invariant": true, "decreases": true,
 	"modifies": true, "let": true, "loop": true, "implements": true, "props": true, "pure": true, "nopanic": true, "inline": true,
 	"view": true, "modelfield": true, "guarded_by": true, "trusted": true, "safe": true, "opaque": true, "noverify": true, "immutable": true,
-	"trusts": true, "assumeat": true, "defines": true, "hint": true, "assumes": true, "uses": true, "hypothesis": true, "mayblock": true, "terminates": true, "nilok": true, "noinv": true, "noxinv": true, "noframe": true, "constructor": true}
+	"trusts": true, "assumeat": true, "defines": true, "hint": true, "checks": true, "assumes": true, "uses": true, "hypothesis": true, "mayblock": true, "syncwrites": true, "terminates": true, "nilok": true, "noinv": true, "noxinv": true, "noframe": true, "constructor": true}
 
 var clauseHead = regexp.MustCompile(`^([a-z_]+)(\[[A-Za-z0-9, ]+\])?\s*(.*)$`)
 
 func LoadContracts(files []string) (*Contracts, error) {
-	c := &Contracts{GlobalNonNil: map[string]bool{}, Decls: map[string]*Decl{}, Funcs: map[string]*FuncSpec{}, Types: map[string]*TypeSpec{}, Defines: map[string]*Define{}, Models: map[string]string{}}
+	c := &Contracts{GlobalNonNil: map[string]bool{}, GlobalGuard: map[string]string{}, Decls: map[string]*Decl{}, Funcs: map[string]*FuncSpec{}, Types: map[string]*TypeSpec{}, Defines: map[string]*Define{}, Models: map[string]string{}}
 	for _, f := range files {
 		if err := c.loadFile(f); err != nil {
 			return nil, err
@@ -196,8 +197,12 @@ func (c *Contracts) loadFile(path string) error {
 		switch w {
 		case "global":
 			f := strings.Fields(rest)
+			if len(f) == 3 && f[1] == "guarded_by" {
+				c.GlobalGuard[pkg+"."+f[0]] = pkg + "." + f[2]
+				break
+			}
 			if len(f) != 2 || f[1] != "nonnil" {
-				return fmt.Errorf("%s:%d: global NAME nonnil", path, b.head.line)
+				return fmt.Errorf("%s:%d: global NAME nonnil | global NAME guarded_by MUTEX", path, b.head.line)
 			}
 			c.GlobalNonNil[pkg+"."+f[0]] = true
 		case "declare":
@@ -398,7 +403,9 @@ func (c *Contracts) loadFile(path string) error {
 					// a postcondition that defines a specification function as "what this function returns":
 					// assumed by callers, never an obligation (the function is deterministic in these arguments)
 					fs.Defines = append(fs.Defines, cl)
-				case "ensures":
+				case "ensures", "checks":
+					// checks: a postcondition proved at every return of the body but not handed to callers
+					// (it may mention local variables through local(x))
 					cl.Ord = len(fs.Ensures) + 1
 					fs.Ensures = append(fs.Ensures, cl)
 				case "xensures":
@@ -534,7 +541,7 @@ func parseClause(l rawLine, path string) (*Clause, error) {
 		} else if _, err2 := ParseExpr("tuple(" + cl.Text + ")"); err2 != nil {
 			return nil, fmt.Errorf("%s:%d: %v", path, l.line, err)
 		}
-	case "requires", "ensures", "xensures", "invariant", "view", "hypothesis", "assumes", "defines":
+	case "requires", "ensures", "checks", "xensures", "invariant", "view", "hypothesis", "assumes", "defines":
 		e, err := ParseExpr(cl.Text)
 		if err != nil {
 			return nil, fmt.Errorf("%s:%d: %v", path, l.line, err)
